@@ -61,7 +61,7 @@ def gen_cases(seed, tier):
             if i % 5 == 0:      # aligned lengths: the last batch exactly full, +-1
                 c["ns"] = c["nbatch"] + int(rng.integers(0, 8)) * (c["nbatch"] - 2 * TAPER) + int(rng.choice([-1, 0, 0, 1]))
         c["ncout"] = [None, None, "n", "less"][i % 4]      # explicit output width, crossed with every other option
-        c.update(cls="sched", seed=seed * 1000 + i, opt=(i % 7) if i < 8 else ([2, 7, 2, 6, 0][i - 8] if i < 13 else i % 8), _w=6 + c["ns"] / 10000 * (c["n"] / 96))
+        c.update(cls="sched", seed=seed * 1000 + i, opt=(i % 7) if i < 7 else ([7, 2, 7, 2, 6, 0][i - 7] if i < 13 else i % 8), _w=6 + c["ns"] / 10000 * (c["n"] / 96))
         cases.append(c)
     for i in range(2 if tier == "quick" else 10):
         cases.append(dict(cls="loky", ns=int(rng.integers(14000, 40000)), nbatch=int(rng.choice([4096, 8192])), n=64, seed=seed * 1000 + 500 + i,
@@ -180,8 +180,19 @@ def reference(V, F, sr, rec, nbatch, k_filter, wrot, labels, nc_out, ns2add, h, 
     kk = k_kwargs or {"ntr_pad": 60, "ntr_tap": 0, "lagc": int(fs / 10), "butter_kwargs": {"N": 3, "Wn": 0.01, "btype": "highpass"}}
     sos = scipy.signal.butter(**bk, output="sos")
 
+    def car_ref(dat, collection=None, operator="median", **_):
+        # common referencing written out: per group of traces (or over all of them) the median / mean across traces is removed at every sample
+        agg = np.median if operator == "median" else np.mean
+        if collection is None:
+            return dat - agg(dat, axis=0)
+        res_ = np.zeros_like(dat)
+        for v in np.unique(collection):
+            sel = np.asarray(collection) == v
+            res_[sel] = dat[sel] - agg(dat[sel], axis=0)
+        return res_
+
     def spatial(dat):
-        return V.kfilt(dat, **kk) if k_filter else V.car(dat, **kk)
+        return V.kfilt(dat, **kk) if k_filter else car_ref(dat, **kk)
     out = np.zeros((ns + ns2add, nc_out), np.float64)
     rows = []
     for first, last in canonical_batches(ns, nbatch):
@@ -222,7 +233,7 @@ def run_destripe(V, b, out, nbatch, nproc, opts, h=None):
     return V.decompress_destripe_cbin(b, **kw)
 
 
-def options(rng, opt, n, pad1=False):
+def options(rng, opt, n, pad1=False, variant=None):
     o = {"k_filter": True}
     if opt == 1:
         o["k_filter"] = False
@@ -242,12 +253,16 @@ def options(rng, opt, n, pad1=False):
     elif opt == 7:
         # filter settings chosen by the caller: temporal high-pass and spatial filter / referencing parameters
         o["butter_kwargs"] = {"N": int(rng.integers(2, 5)), "Wn": float(rng.uniform(150, 600)) / 30000 * 2, "btype": "highpass"}
-        if rng.random() < 0.5:
+        if (rng.random() < 0.5) if variant is None else (variant == 0):
             o["k_kwargs"] = {"ntr_pad": int(rng.choice([0, 20, 60])), "ntr_tap": 0, "lagc": [None, int(rng.integers(300, 6000))][int(rng.integers(0, 2))],
                              "butter_kwargs": {"N": int(rng.integers(2, 4)), "Wn": float(rng.uniform(0.01, 0.1)), "btype": "highpass"}}
         else:
             o["k_filter"] = False
-            o["k_kwargs"] = {"operator": "average"}
+            o["k_kwargs"] = {"operator": str(rng.choice(["average", "average", "median"]))}
+            if rng.random() < 0.8:
+                # referencing per group of channels (shanks, or any grouping the caller chooses); the per-channel tones of the recordings make the
+                # mean and the median across a group differ by several counts at most samples
+                o["k_kwargs"]["collection"] = np.sort(rng.integers(0, int(rng.integers(2, 5)), n))
     return o
 
 
@@ -284,7 +299,7 @@ def run_case(case):
                 b = _np2.compress_original(b, rec, chunk_duration=float(rng.choice([0.05, 0.11, 1.0])))
                 container = "cbin"
                 res.count("compressed_inputs")
-            opts = options(rng, case["opt"], n, pad1=case["seed"] % 1000 == 8)      # every run pads one recording by exactly one sample
+            opts = options(rng, case["opt"], n, pad1=case["seed"] % 1000 == 8, variant=(case["seed"] // 2) % 2)      # every run pads one recording by exactly one sample, and holds both kinds of caller-chosen spatial settings
             if case.get("ncout") == "n":
                 opts["nc_out"] = n
             elif case.get("ncout") == "less":
@@ -295,7 +310,7 @@ def run_case(case):
             ns2add = opts.get("ns2add", 0)
             total_rows = ns + ns2add
             rowbytes = nc_out * 2
-            label = f"{rec.kind} nsync={rec.nsync} {container}{'' if claim is None else f' (metadata announces {claim} samples)'} ns={ns} nbatch={nbatch} (K={K} batches) workers={nw} n={n} opts={ {k: (v if np.isscalar(v) or isinstance(v, dict) else 'matrix') for k, v in opts.items()} }"
+            label = f"{rec.kind} nsync={rec.nsync} {container}{'' if claim is None else f' (metadata announces {claim} samples)'} ns={ns} nbatch={nbatch} (K={K} batches) workers={nw} n={n} opts={ {k: (v if np.isscalar(v) else ({kk_: (vv_ if np.isscalar(vv_) or isinstance(vv_, dict) or vv_ is None else 'array') for kk_, vv_ in v.items()} if isinstance(v, dict) else 'matrix')) for k, v in opts.items()} }"
             res.count("configs")
             res.count("saturated_samples", sum(e - a for a, e in rec.sat))
             chunk = int(ns / nw)
